@@ -36,6 +36,10 @@ RULES = {
     # that is too coarse (merges them) is as visible as one that is too fine
     "tcp8080":  ("-j ACCEPT -s 10.1.1.1 -d 10.1.2.1 -p tcp --dport 8080",
                  "-s 10.1.1.1/32 -d 10.1.2.1/32 -p tcp -m tcp --dport 8080 -j ACCEPT"),
+    "tcp8000":  ("-j ACCEPT -s 10.1.1.1 -d 10.1.2.1 -p tcp --dport 8000",
+                 "-s 10.1.1.1/32 -d 10.1.2.1/32 -p tcp -m tcp --dport 8000 -j ACCEPT"),
+    "udp1024y": ("-j ACCEPT -d 10.1.2.0/30 -p udp --dport 1024:6500",
+                 "-d 10.1.2.0/30 -p udp -m udp --dport 1024:6500 -j ACCEPT"),
     "tcp80net": ("-j ACCEPT -s 10.1.1.0/31 -d 10.1.2.1 -p tcp --dport 80",
                  "-s 10.1.1.0/31 -d 10.1.2.1/32 -p tcp -m tcp --dport 80 -j ACCEPT"),
     "tcp80h0":  ("-j ACCEPT -s 10.1.1.0 -d 10.1.2.1 -p tcp --dport 80",
@@ -65,7 +69,7 @@ RULES = {
     "drop":     ("-j DROP", "-j DROP"),
     "rawdrop":  ("-j DROP -s 10.1.2.2", "-s 10.1.2.2/32 -j DROP"),
 }
-ACT = {"tcp8080": "ACCEPT", "tcp80net": "ACCEPT", "tcp80h0": "ACCEPT", "sport": "ACCEPT", "lowports": "ACCEPT",
+ACT = {"tcp8000": "ACCEPT", "udp1024y": "ACCEPT", "tcp8080": "ACCEPT", "tcp80net": "ACCEPT", "tcp80h0": "ACCEPT", "sport": "ACCEPT", "lowports": "ACCEPT",
        "udp1024x": "ACCEPT", "vrrp": "ACCEPT", "proto113": "ACCEPT", "icmp8": "ACCEPT", "icmp0": "ACCEPT",
        "state1": "ACCEPT", "possrc": "DROP", "negold": "DROP", "markhex": "MARK", "markmask": "MARK",
        "loginfo": "LOG", "ifin": "ACCEPT", "ifout": "ACCEPT", "frag": "ACCEPT", "logtcp": "LOG", "logip": "LOG",
@@ -108,7 +112,7 @@ def render(cfg, dev):
 def merge_files(case):
     pa = case["tgt"]["parts"]
     raw = None
-    xc, xt = pa.get("xchain"), pa.get("xtable")
+    xc, xt = pa.get("xchain"), pa.get("xtable", "none") != "none"
     if pa["pre"] or pa["app"] or xc or xt:
         lines = []
         if pa["pre"] or pa["app"] or xc:
